@@ -167,7 +167,7 @@ theorem C14_reachable (s : Sys) (l : List Step) (h : s.reward.Inv) : (s.steps l)
       intro x m x' ms hp hx
       cases handle_touch x x' m ms hx with
       | none h _ _ _ => rw [h.reward]; exact hp
-      | hub s1 sender funds hm _ _ _ hx' b t r d g => rw [r]; exact hp
+      | hub s1 sender funds hm _ _ _ _ hx' b t r d g => rw [r]; exact hp
       | bsei s1 sender funds tm _ _ hx' h t r d g => rw [r]; exact hp
       | stsei blk sender funds tm _ hx' h b r d g => rw [r]; exact hp
       | reward s1 sender funds rm _ _ _ _ hx' h b t d g => exact C14_inv_step _ _ _ _ _ _ _ _ _ hp hx'
@@ -315,7 +315,7 @@ theorem FundInv.step (o : Addr × Addr) (rd : Denom) (s s' : Sys) (m : Msg) (res
           · exact absurd rfl (hm _ _ _ _)
           · injection heq with _ e2 _ _; subst e2
             rcases ht with ht | ht <;> simp [ht, internal]
-        | hub _ _ _ _ heq _ _ _ _ _ _ _ _ => injection heq with _ e2 _ _; simp [e2, internal]
+        | hub _ _ _ _ heq _ _ _ _ _ _ _ _ _ => injection heq with _ e2 _ _; simp [e2, internal]
         | bsei _ _ _ _ heq _ _ _ _ _ _ _ => injection heq with _ e2 _ _; simp [e2, internal]
         | stsei _ _ _ _ heq _ _ _ _ _ _ => injection heq with _ e2 _ _; simp [e2, internal]
         | reward _ _ _ _ heq _ _ _ _ _ _ _ _ _ => injection heq with _ e2 _ _; simp [e2, internal]
@@ -342,7 +342,7 @@ theorem FundInv.step (o : Addr × Addr) (rd : Denom) (s s' : Sys) (m : Msg) (res
       s'.reward.rewardDenom = s.reward.rewardDenom ∧ s'.reward.swapDenoms = s.reward.swapDenoms := by
     cases handle_touch s s' m subs hx with
     | none h _ _ _ => rw [h.reward]; exact ⟨rfl, rfl, rfl, rfl⟩
-    | hub _ _ _ _ _ _ _ _ _ _ r _ _ => rw [r]; exact ⟨rfl, rfl, rfl, rfl⟩
+    | hub _ _ _ _ _ _ _ _ _ _ _ r _ _ => rw [r]; exact ⟨rfl, rfl, rfl, rfl⟩
     | bsei _ _ _ _ _ _ _ _ _ r _ _ => rw [r]; exact ⟨rfl, rfl, rfl, rfl⟩
     | stsei _ _ _ _ _ _ _ _ r _ _ => rw [r]; exact ⟨rfl, rfl, rfl, rfl⟩
     | disp _ _ _ _ _ _ _ _ _ r _ => rw [r]; exact ⟨rfl, rfl, rfl, rfl⟩
@@ -378,7 +378,7 @@ theorem FundInv.step (o : Addr × Addr) (rd : Denom) (s s' : Sys) (m : Msg) (res
       have hrw : s'.reward = s.reward := by
         cases handle_touch s s' _ subs hx with
         | none h _ _ _ => exact h.reward
-        | hub _ _ _ _ heq _ _ _ _ _ _ _ _ => cases heq
+        | hub _ _ _ _ heq _ _ _ _ _ _ _ _ _ => cases heq
         | bsei _ _ _ _ heq _ _ _ _ _ _ _ => cases heq
         | stsei _ _ _ _ heq _ _ _ _ _ _ => cases heq
         | reward _ _ _ _ heq _ _ _ _ _ _ _ _ _ => cases heq
@@ -422,7 +422,7 @@ theorem FundInv.step (o : Addr × Addr) (rd : Denom) (s s' : Sys) (m : Msg) (res
           · rw [h.reward, outflowAll_append, hsub0]
             simp only [outflow, if_true] at hle
             simp only [outflowAll] at hle ⊢; omega
-        | hub _ _ _ _ heq _ _ _ _ _ _ _ _ => injection heq with _ _ e3 _; cases e3
+        | hub _ _ _ _ heq _ _ _ _ _ _ _ _ _ => injection heq with _ _ e3 _; cases e3
         | bsei _ _ _ _ heq _ _ _ _ _ _ _ => injection heq with _ _ e3 _; cases e3
         | stsei _ _ _ _ heq _ _ _ _ _ _ => injection heq with _ _ e3 _; cases e3
         | reward _ _ _ _ heq _ _ _ _ _ _ _ _ _ => injection heq with _ _ e3 _; cases e3
@@ -448,7 +448,7 @@ theorem FundInv.step (o : Addr × Addr) (rd : Denom) (s s' : Sys) (m : Msg) (res
       · rw [hrw]; simp only [outflowAll, List.map_nil, List.sum_nil, Nat.add_zero]; omega
     cases handle_touch s s' m subs hx with
     | none h hm' hs _ => exact other h.reward (fun x hx' => by rw [hs x hx']; decide)
-    | hub s1 sender funds hm' heq _ _ _ _ _ r _ _ =>
+    | hub s1 sender funds hm' heq _ _ _ _ _ _ r _ _ =>
       exact other r (fun x hx' => by rw [(sent.1 _ _ _ _ heq) x hx']; decide)
     | bsei s1 sender funds tm heq _ _ _ _ r _ _ =>
       exact other r (fun x hx' => by rw [(sent.1 _ _ _ _ heq) x hx']; decide)
